@@ -79,6 +79,28 @@ Theorem C01_block_pipeline : forall P s o w' t0, let C := pc_reader P in
 Proof. exact replay_block. Qed.
 Print Assumptions C01_block_pipeline.
 
+(* ---- sequences of blocks on the Pipeline model, of any length: the history is one block
+   AOp o; ARead (whole kernel queue); ATick delay; AEmit x nit   per applicable operation ([block_hist]); after every
+   block the pipeline is synchronised and idle again ([PSync]: RSync, nothing buffered, reader thread and emitter alive -
+   no raw event of a covered operation announces the end of the root), and the replay of p_out is the tree *)
+Theorem C01_sequential_pipeline_partial : forall P t0, let C := pc_reader P in
+  c_faults C = [] -> c_mask C = WATCHDOG_ALL -> pc_filter P = None ->
+  forall ops s, PSync P s -> ops_c01 C (p_world s) ops ->
+  TInv (c_recursive C) (c_root C) (replay (c_recursive C) (c_root C) t0 (p_out s)) (p_world s) ->
+  exists h s' obs, block_hist P s ops h /\ prun P s h [] = Done (s', obs) /\ PSync P s' /\
+    TInv (c_recursive C) (c_root C) (replay (c_recursive C) (c_root C) t0 (p_out s')) (p_world s').
+Proof. exact blocks_replay. Qed.
+Print Assumptions C01_sequential_pipeline_partial.
+
+Theorem C01_pipeline_from_start_partial : forall P ops w s0, let C := pc_reader P in
+  c_faults C = [] -> c_mask C = WATCHDOG_ALL -> pc_filter P = None -> wf_fs w -> fisdir (c_root C) (w_fs w) = true ->
+  pinit P w = Some s0 -> ops_c01 C w ops ->
+  exists h s' obs, block_hist P s0 ops h /\ prun P s0 h [] = Done (s', obs) /\ PSync P s' /\
+    forall x, alookup beqb x (replay (c_recursive C) (c_root C) (tree_of (c_recursive C) (c_root C) w) (p_out s'))
+            = alookup beqb x (tree_of (c_recursive C) (c_root C) (p_world s')).
+Proof. exact replay_pipeline_from_start. Qed.
+Print Assumptions C01_pipeline_from_start_partial.
+
 (* ================================================================== the full statements *)
 Definition repaired (C : cfg) : Prop :=
   c_faults C = [] /\ c_fix_ignored C = true /\ c_fix_movein C = true /\ c_fix_simulate C = true /\ c_mask C = WATCHDOG_ALL.
@@ -93,9 +115,9 @@ Definition tree_eq (a b : tree) : Prop := forall p, alookup beqb p a = alookup b
    delay queue is empty).
    MISSING relative to C01_sequential_partial: (a) the operation kinds outside covered_op - a directory moved into the
    tree (synthetic created events for its content), a directory moved out, a directory renamed over an empty directory,
-   directory renames under a non-recursive watch or entirely outside the tree, Chmod of the root; (b) the drain through
-   DelayQueue/Grouping instead of deliver_one (C03_pipeline_tie gives p_out = p_out ++ deliver_one for ONE operation
-   from an idle buffer; it does not say that the buffer is idle again afterwards, which the induction needs). *)
+   directory renames under a non-recursive watch or entirely outside the tree (C02 covers their watch state, their
+   replay is not proved), Chmod of the root; (b) [seq_run]'s drain (AEmit / ATick driven by the queue) instead of the
+   fixed block shape of C01_sequential_pipeline_partial. *)
 Definition C01_sequential_full : Prop :=
   forall P, repaired (pc_reader P) -> pc_filter P = None ->
   forall w0 s0, wf_fs w0 -> fisdir (c_root (pc_reader P)) (w_fs w0) = true -> pinit P w0 = Some s0 ->
@@ -147,6 +169,7 @@ Definition C01_replay_full : Prop :=
           (tree_of (c_recursive (pc_reader P)) (c_root (pc_reader P)) (p_world s)).
 
 (* ================================================================== non-vacuity *)
+
 (* the replay function on a concrete stream: created, a directory moved with its sub-tree (the synthetic event of the
    descendant finds its source gone and only confirms the destination), an event out of scope, deleted *)
 Example C01_replay_example :
@@ -209,3 +232,10 @@ Example C01_sequential_example :
     tree_of true pR w' = [(sub pR 98, true); (sub (sub pR 98) 99, true); (sub (sub pR 98) 103, false)] /\
     same_tree (replay true pR (tree_of true pR w0) out) (tree_of true pR w') = true.
 Proof. eexists _, _, _, _, _, _. split; [vm_compute; reflexivity|]. split; [vm_compute; reflexivity|]. vm_compute. auto. Qed.
+
+(* the Pipeline model run block by block (6 AEmit per block) on the first ten operations of c01_ops *)
+Example C01_pipeline_example :
+  exists s0 s', pinit (Px true) w0 = Some s0 /\ run_blocks (Px true) 6 s0 (firstn 10 c01_ops) = Some s' /\
+    p_stopped s' = false /\ length (p_out s') = 28 /\
+    same_tree (replay true pR (tree_of true pR w0) (p_out s')) (tree_of true pR (p_world s')) = true.
+Proof. eexists _, _. split; [vm_compute; reflexivity|]. split; [vm_compute; reflexivity|]. vm_compute. auto. Qed.
